@@ -12,7 +12,7 @@ from common import sexp, parse_sexp
 import c12_gen
 
 MODEL_FILES = ['MaltModel/Rt/Errors.lean', 'MaltModel/Generated/Errors.lean', 'MaltModel/Proofs/C12SrcMap.lean',
-               'MaltModel/Proofs/C12Stack.lean', 'MaltModel/Drv/C12.lean']
+               'MaltModel/Proofs/C12Stack.lean', 'MaltModel/Proofs/C12Check.lean', 'MaltModel/Drv/C12.lean']
 CORPUS = os.path.join(common.VERIF, 'corpus', 'C12')
 
 STACK_CLASSES = ['reentered_conversion', 'foreign_key_hit', 'site_in_lambda']   # order of c12.classes' answer
@@ -24,13 +24,11 @@ STACK_CLASSES = ['reentered_conversion', 'foreign_key_hit', 'site_in_lambda']   
 _W = {}
 
 
-def _worker_init(repo):
+def _worker_init(repo, base=None):
     sys.path.insert(0, repo)
-    d = tempfile.mkdtemp(prefix='c12w_')
+    d = tempfile.mkdtemp(prefix='c12w_', dir=base)   # inside the parent's scratch directory, which the parent removes
     tempfile.tempdir = d           # malt's loader writes its generated modules here
     _W['dir'] = d
-    import atexit
-    atexit.register(lambda: shutil.rmtree(d, ignore_errors=True))
     import c12_real
     c12_real.install()
 
@@ -203,7 +201,7 @@ def check(run):
     sweep = sweep_specs(random.Random(run.seed * 1000003 + 17))
     for s in sweep:
         cases.append({'spec': s, 'tag': 'k%d' % len(cases)})
-    n_random = 900 if quick else 9000
+    n_random = 900 if quick else 6000
     for _ in range(n_random):
         cases.append({'spec': c12_gen.random_spec(run.rng), 'tag': 'k%d' % len(cases)})
     corr_every = 1 if quick else 3        # correspondence requests for every case (quick) / every third (thorough)
@@ -222,10 +220,14 @@ def process(run, cases, corr_every=1, full=True):
     nproc = min(12, os.cpu_count() or 2)
     ctx = multiprocessing.get_context('fork')
     t0 = time.time()
-    with ctx.Pool(nproc, initializer=_worker_init, initargs=(common.REPO,)) as pool:
-        results = [None] * len(jobs)
-        for idx, res in pool.imap_unordered(_worker_run, jobs, chunksize=8):
-            results[idx] = res
+    base = tempfile.mkdtemp(prefix='c12_')
+    try:
+        with ctx.Pool(nproc, initializer=_worker_init, initargs=(common.REPO, base)) as pool:
+            results = [None] * len(jobs)
+            for idx, res in pool.imap_unordered(_worker_run, jobs, chunksize=8):
+                results[idx] = res
+    finally:
+        shutil.rmtree(base, ignore_errors=True)
     run.cov['case_wall_s'] = round(time.time() - t0, 1)
 
     # ---------------- aggregate the direct oracle ----------------
